@@ -112,11 +112,15 @@ func (o *objectGoArrayReflect) _hasStr(name unistring.String) bool {
 }
 
 func (o *objectGoArrayReflect) _getIdx(idx int) Value {
-	if v := o.valueCache.get(idx); v != nil {
-		return v.esValue()
-	}
-
 	v := o.fieldsValue.Index(idx)
+	if cached := o.valueCache.get(idx); cached != nil {
+		if sameLocation(cached, v) {
+			return cached.esValue()
+		}
+		// Go code has replaced the slice (append, re-slicing, assignment): the earlier reference
+		// keeps the element it was taken from, the slot is read afresh
+		o.valueCache[idx] = nil
+	}
 
 	res, w := o.elemToValue(v)
 	if w != nil {
